@@ -1,9 +1,13 @@
 (* C16 — the body written by VcfWriter.write is the specified text; masked sites are
    irrelevant for the repaired position-zero check and not for the one in the code. *)
 From Coq Require Import List ZArith Bool Lia.
-From TskVerif Require Import Base.Common C16.Model C16.Spec C16.TemplateProofs.
+From TskVerif Require Import Base.Common Gen.Generated C16.Model C16.Spec C16.TemplateProofs.
 Import ListNotations.
 Open Scope Z_scope.
+
+(* the regenerated allele limit is the one of the property text *)
+Lemma allele_limit_is_nine : c16_max_alleles = 9.
+Proof. reflexivity. Qed.
 
 (* ---- calls ---- *)
 
@@ -83,7 +87,7 @@ Proof.
   intros contig ps gt id s Hne HP [vals [Hv ->]] Hg Ha.
   pose proof (final_seps_length ps Hne HP) as HF.
   unfold write_site, site_error.
-  destruct (9 <? zlen (sd_alleles s)) eqn:E9; [reflexivity|]. cbn [orb].
+  destruct (c16_max_alleles <? zlen (sd_alleles s)) eqn:E9; [reflexivity|]. cbn [orb].
   destruct (sd_alleles s) as [|ref rest] eqn:EA; [congruence|].
   change (get (ref :: rest) 0) with (Ok ref). cbn [bind].
   rewrite scatter_weave_n by (rewrite ?map_length; lia). cbn [bind].
